@@ -171,32 +171,66 @@ def _v4(ctx):
 
 def _v5(ctx):
     R = "C03-V5"
-    ctx.doc(R, "loop-bound operator table: max <= {==,<=,<}, min <= {>=,>,==}, exclusive <= {<,>}")
+    ctx.doc(R, "loop-bound operator table, by constant evaluation of the block for every operator the Comparison model accepts: upper bounds for == <= <, lower bounds (or the negated upper bound) for >= > ==, strict operators exclusive, product* operators multiply")
+    from ..consteval import Evaluator, Sym, Unsupported
     fi = ctx.func(MTS, "_make_tile_shapes", R)
-    table = {}
-    for st in fi.stmts():
-        if isinstance(st, ast.If) and isinstance(st.test, ast.Compare) and norm(st.test.left) == "operator" and isinstance(st.test.ops[0], ast.In) and isinstance(st.test.comparators[0], (ast.List, ast.Tuple, ast.Set)):
-            ops = {e.value for e in st.test.comparators[0].elts if isinstance(e, ast.Constant)}
-            for b in st.body:
-                for t, v, _ in assigned_targets(b):
-                    if isinstance(t, ast.Name):
-                        table[t.id] = (ops, st, norm(v))
-    ctx.require({"max_value", "min_value", "inclusive"} <= set(table), R, f"operator table entries {sorted(table)}")
-    want = {"max_value": ({"==", "<=", "<"}, "c.constraint.value"), "min_value": ({">=", ">", "=="}, "c.constraint.value"), "inclusive": ({"<", ">"}, "False")}
-    for k, (ops, val) in want.items():
-        got, st, gv = table[k]
-        ctx.check(got == ops and gv == val, R, fi, st.test, f"{k} is set to `{gv}` for operators {sorted(got)}; the mathematical table says {sorted(ops)} -> {val} "
-                                                          f"(e.g. a `<` constraint treated as `<=` admits one iteration too many)", f"{k}: {sorted(ops)} -> {val}")
-    init = [s for s in fi.stmts() for t, v, _ in assigned_targets(s) if isinstance(t, ast.Tuple) and norm(t) == "(min_value, max_value, inclusive)"]
-    ok = len(init) == 1 and norm(init[0].value) == "(None, None, True)"
-    ctx.check(ok, R, fi, init[0] if init else fi.node, "bounds do not start as (None, None, inclusive)", "defaults: no bound, inclusive")
-    neg = [s for s in fi.stmts() if isinstance(s, ast.If) and norm(s.test) == "max_value is None and min_value is not None"]
-    ok = len(neg) == 1 and {norm(b) for b in neg[0].body} == {"max_value = -min_value", "targets = [-target for target in targets]", "min_value = None"}
-    ctx.check(ok, R, fi, neg[0].test if neg else fi.node, "a pure lower bound is not turned into an upper bound on the negated target consistently", "min-only: negate both bound and target")
-    objs = [c for c in fi.calls("Objective") if "loop_bounds_" in norm(kwarg(c, "name") or ast.Constant(""))]
-    ok = len(objs) == 1 and all(norm(kwarg(objs[0], k)) == k for k in ("max_value", "min_value", "inclusive")) and norm(kwarg(objs[0], "only_care_if_valid")) == "True"
-    ctx.check(ok, R, fi, objs[0] if objs else fi.node, "the loop-bound objective does not carry max_value/min_value/inclusive as computed", "objective carries the computed bounds")
-    ctx.floor(R, 6)
+    # the operator domain: keys of Comparison._to_constraint_lambda's dispatch table
+    cl = ctx.func("accelforge/frontend/arch/constraints.py", "Comparison._to_constraint_lambda", R)
+    dom = []
+    for st in cl.stmts():
+        for t, v, _ in assigned_targets(st):
+            if isinstance(v, ast.Dict) and v.keys and all(isinstance(k, ast.Constant) and isinstance(k.value, str) for k in v.keys) and len(v.keys) >= 5:
+                dom = [k.value for k in v.keys]
+    ctx.require(len(dom) >= 10, R, f"operator domain of Comparison: {dom}")
+    loops = [s for s in fi.stmts() if isinstance(s, ast.For) and norm(s.iter).endswith("loop_bounds_constraints")]
+    ctx.require(len(loops) == 1 and isinstance(loops[0].target, ast.Name), R, "loop over constraints.loop_bounds_constraints")
+    loop = loops[0]
+    c = loop.target.id
+    objs = [x for x in ast.walk(loop) if isinstance(x, ast.Call) and call_name(x) == "Objective"]
+    ctx.require(len(objs) == 1, R, f"Objective constructions in the loop-bound block: {len(objs)}")
+    obj = objs[0]
+    for op in dom:
+        ev = Evaluator({f"{c}.constraint.operator": op, f"{c}.constraint.value": Sym("VALUE")}, lenient=True)
+        try:
+            env = ev.run(loop.body)
+            got = {k: (ev.ev(kwarg(obj, k)) if kwarg(obj, k) is not None else ({"inclusive": True}.get(k))) for k in ("max_value", "min_value", "inclusive")}
+        except Unsupported as e:
+            ctx.require(False, R, f"loop-bound block for operator {op!r}: {e}")
+        tg = env.get("targets")
+        negated = False
+        if isinstance(tg, Sym):
+            try:
+                te = ast.parse(tg.text, mode="eval").body
+                negated = isinstance(te, ast.ListComp) and isinstance(te.elt, ast.UnaryOp) and isinstance(te.elt.op, ast.USub)
+            except SyntaxError:
+                negated = False
+        base = op.replace("product", "")
+        VALUE, NEG = Sym("VALUE"), Sym("-(VALUE)")
+        need_upper = base in ("==", "<=", "<")
+        need_lower = base in (">=", ">", "==")
+        strict = base in ("<", ">")
+        mx, mn, inc = got["max_value"], got["min_value"], got["inclusive"]
+        problems = []
+        if isinstance(inc, Sym) or not isinstance(inc, bool):
+            ctx.require(False, R, f"inclusive flag for operator {op!r} is not constant: {inc}")
+        if need_upper and not (mx == VALUE and not negated):
+            problems.append(f"no upper bound at the constraint value (max_value={mx}, target negated={negated})")
+        if need_lower and not ((mn == VALUE and not negated) or (mx == NEG and negated and mn is None)):
+            problems.append(f"no lower bound at the constraint value (min_value={mn}, max_value={mx}, target negated={negated})")
+        if not need_upper and not negated and mx is not None and mx != VALUE:
+            problems.append(f"an upper bound {mx} that the constraint does not state")
+        if strict and inc is not False:
+            problems.append("a strict operator is enforced inclusively: the bound value itself is accepted (one iteration / one unit too many)")
+        ip = env.get("is_product")
+        if "product" in op and ip is not True:
+            problems.append(f"the product form is not recognised (is_product={ip}): each loop is bounded separately instead of their product")
+        if "product" not in op and ip is True:
+            problems.append("a per-loop operator is treated as a product bound")
+        ctx.check(not problems, R, fi, loop.body[0], f"operator {op!r}: " + "; ".join(problems), f"{op!r}: max={mx} min={mn} inclusive={inc} negated={negated} product={ip}")
+    prod = [s for s in loop.body if isinstance(s, ast.If) and norm(s.test) == "is_product"]
+    ok = len(prod) == 1 and any("Mul" in norm(b) or "prod" in norm(b) for b in prod[0].body)
+    ctx.check(ok, R, fi, prod[0] if prod else loop, "is_product does not turn the targets into their product", "is_product => targets = [Mul(*targets)]")
+    ctx.floor(R, 11)
 
 
 def _v6(ctx):
@@ -262,6 +296,40 @@ def _v7(ctx):
     ctx.floor(R, 4)
 
 
+def _v8(ctx, R="C03-V8"):
+    ctx.doc(R, "per-memory bits-per-value overrides are looked up by the tensor whose workload width is the default (sibling agreement of the 'big enough, do not track' estimate with the model)")
+    n = 0
+    for fi in ctx.repo.all_funcs("accelforge/"):
+        calls = [c for c in fi.calls("get") if isinstance(c.func, ast.Attribute) and isinstance(c.func.value, ast.Attribute) and c.func.value.attr == "bits_per_value"]
+        if not calls:
+            continue
+        defs = single_defs(fi.node, fi.params())
+        for c in calls:
+            ctx.require(len(c.args) == 2, R, f"{fi.fq}: `{norm(c)[:80]}` without a default")
+            k, d = c.args
+            seen = 0
+            while isinstance(d, ast.Name) and defs.get(d.id) is not None and seen < 4:
+                d = defs[d.id]
+                seen += 1
+            subs = [x for x in ast.walk(d) if isinstance(x, ast.Subscript) and isinstance(x.value, ast.Attribute) and x.value.attr == "tensor_accesses"]
+            if not subs:
+                continue  # not the 'override, else workload width' idiom (e.g. the component's own default chain)
+            ctx.require(len(subs) == 1, R, f"{fi.fq}: default `{norm(d)[:80]}` of the override lookup mentions several tensor accesses")
+            n += 1
+            # the resolved width, not the default, is what the function goes on to use
+            d0 = c.args[1]
+            if isinstance(d0, ast.Name):
+                # arithmetic uses only: handing the default on to another resolver (`_get_values_per_action(.., default)`) is fine
+                arith = {id(n) for b in fi.walk(into_nested=True) if isinstance(b, (ast.BinOp, ast.AugAssign)) for n in ([b.left, b.right] if isinstance(b, ast.BinOp) else [b.value])}
+                other = [x for x in fi.walk(into_nested=True) if isinstance(x, ast.Name) and x.id == d0.id and isinstance(x.ctx, ast.Load) and x is not d0 and id(x) in arith]
+                ctx.check(not other, R, fi, other[0] if other else c, f"`{d0.id}` (the workload width) is read again after the per-memory override has been resolved: the override is computed and then ignored, "
+                          "so a memory holding wider values is sized with the workload's width", f"default `{d0.id}` only feeds the override lookup")
+            ctx.check(norm(subs[0].slice) == norm(k), R, fi, c, f"the override is looked up under `{norm(k)}` but the default is the workload width of tensor `{norm(subs[0].slice)}`: the lookup misses, the workload width is used, "
+                      "and a memory holding wider values is judged big enough (left untracked) or its occupancy under-counted", f"override key = tensor of the default (`{norm(k)}`)")
+    ctx.require(n >= 4, R, f"override lookups found: {n}")
+    ctx.floor(R, 4)
+
+
 def check(ctx):
     _v7(ctx)
     _v1(ctx)
@@ -269,6 +337,7 @@ def check(ctx):
     _v4(ctx)
     _v5(ctx)
     _v6(ctx)
+    _v8(ctx)
 
 
 _MERGE_LC = "        if not CHECK_CORRECTNESS:\n            result.limit_capacity(\n                next_shared_loop_index, ignored_resources=ignored_resources\n            )\n"
@@ -281,7 +350,27 @@ VARIANTS = [
     {"kind": "F", "name": "lt-treated-as-leq", "rule": "C03-V5", "edits": [(MTS, '        if operator in ["<", ">"]:\n            inclusive = False', '        if operator in [">"]:\n            inclusive = False')]},
     {"kind": "F", "name": "limit-plus-one", "rule": "C03-V6", "edits": [(MTS, "            choices_enumerated = choices_enumerated[n <= limit]", "            choices_enumerated = choices_enumerated[n <= limit + 1]")]},
     {"kind": "F", "name": "exclusive-mask-inclusive", "rule": "C03-V4", "edits": [(MTS, "                            valid = result < objective.max_value", "                            valid = result <= objective.max_value")]},
-    {"kind": "F", "name": "geq-in-max-list", "rule": "C03-V5", "edits": [(MTS, '        if operator in ["==", "<=", "<"]:\n            max_value = c.constraint.value', '        if operator in ["==", "<=", "<", ">="]:\n            max_value = c.constraint.value')]},
+    {"kind": "F", "name": "strictness-read-before-product-prefix-is-stripped", "rule": "C03-V5", "edits": [(MTS, """        min_value, max_value, inclusive = None, None, True
+        is_product = "product" in c.constraint.operator
+        operator = c.constraint.operator.replace("product", "")""", """        min_value, max_value = None, None
+        operator = c.constraint.operator
+        is_product = "product" in operator
+        inclusive = operator not in ["<", ">"]
+        operator = operator.replace("product", "")"""), (MTS, """        if operator in ["<", ">"]:
+            inclusive = False
+
+        targets = []""", """        targets = []""")]},
+    {"kind": "F", "name": "gt-missing-from-min-list", "rule": "C03-V5", "edits": [(MTS, '        if operator in [">=", ">", "=="]:\n            min_value = c.constraint.value', '        if operator in [">=", "=="]:\n            min_value = c.constraint.value')]},
+    {"kind": "S", "name": "operator-table-as-dict", "edits": [(MTS, """        if operator in ["<", ">"]:
+            inclusive = False
+
+        targets = []""", """        inclusive = operator not in ("<", ">")
+
+        targets = []""")]},
+    {"kind": "F", "name": "override-looked-up-by-einsum", "rule": "C03-V8", "edits": [("accelforge/mapper/FFM/_make_pmappings/make_pmappings.py", "                    effective_bpv = mem.bits_per_value.get(tensor, workload_bpv)", "                    effective_bpv = mem.bits_per_value.get(einsum, workload_bpv)")]},
+    {"kind": "F", "name": "override-resolved-then-ignored", "rule": "C03-V8", "edits": [("accelforge/mapper/FFM/_make_pmappings/make_pmappings.py", "                    usage += tensor_sizes[tensor] * effective_bpv / mem.size", "                    usage += tensor_sizes[tensor] * workload_bpv / mem.size")]},
+    # `>=` additionally given an upper bound at the value enforces equality: fewer mappings, all of them within the constraint (1-sided rule: stricter is accepted)
+    {"kind": "S", "name": "geq-in-max-list", "edits": [(MTS, '        if operator in ["==", "<=", "<"]:\n            max_value = c.constraint.value', '        if operator in ["==", "<=", "<", ">="]:\n            max_value = c.constraint.value')]},
     {"kind": "F", "name": "model-capacity-check-loosened", "rule": "C03-V7", "edits": [("accelforge/model/run_model.py", "        if isinstance(running_total, Number) and running_total > size:", "        if isinstance(running_total, Number) and running_total > 2 * size:")]},
     {"kind": "F", "name": "model-fanout-check-removed", "rule": "C03-V7", "edits": [("accelforge/model/run_model.py", "                if isinstance(used, Number) and used > s.fanout:\n                    raise InvalidMappingError(", "                if False:\n                    raise InvalidMappingError(")]},
     {"kind": "S", "name": "remove-only-merge-filter", "edits": [(PD, _MERGE_LC, "")]},
